@@ -1,3 +1,10 @@
+//! vf-eng-e: engine-level checks C11 (no transaction can crash the engine), C38 (static resource
+//! movement bounds are sound) and the engine parts of C36 / C37.
+
+pub mod args;
+pub mod c11;
+pub mod env;
+
 pub fn checks() -> Vec<vf_core::Check> {
-    vec![]
+    vec![c11::check()]
 }
